@@ -7,7 +7,7 @@
 import Y0.Lemmas.IdSoundA
 
 namespace Y0
-open MG
+open MG IdAux
 
 def posOf (o : List Name) (v : Name) : Nat := (o.takeWhile (· ≠ v)).length
 
@@ -22,7 +22,7 @@ def checkedTopo (H : MG Name) : Except Err (List Name) :=
   | .ok o => if validTopoB H o then .ok o else .error (.internal "NetworkXUnfeasible")
   | .error e => .error e
 
-theorem posOf_lt_of_mem_left {l1 l2 : List Name} {a : Name} (ha : a ∈ l1) : posOf (l1 ++ l2) a < l1.length := by
+theorem IdAux.posOf_lt_of_mem_left {l1 l2 : List Name} {a : Name} (ha : a ∈ l1) : posOf (l1 ++ l2) a < l1.length := by
   unfold posOf
   induction l1 with
   | nil => cases ha
@@ -38,7 +38,7 @@ theorem posOf_lt_of_mem_left {l1 l2 : List Name} {a : Name} (ha : a ∈ l1) : po
       simp [List.takeWhile, h]
       omega
 
-theorem posOf_ge_of_not_mem_left {l1 l2 : List Name} {r : Name} (hr : r ∉ l1) : l1.length ≤ posOf (l1 ++ l2) r := by
+theorem IdAux.posOf_ge_of_not_mem_left {l1 l2 : List Name} {r : Name} (hr : r ∉ l1) : l1.length ≤ posOf (l1 ++ l2) r := by
   unfold posOf
   induction l1 with
   | nil => simp
